@@ -500,6 +500,45 @@ theorem settled_update_blocks (S : State) (so : Bool) (modes : List Nat) (start 
   spec_implies_blocked _ dh dp tp
     (denotes_sub _ _ (fun s hs => update_refines S so modes start s hs) dh dp tp hown)
 
+/-- **the two listener models agree exactly.** From a settled state with unique keys (`_instances` is a
+    dict), once the events of one complete update are through: the sockets that are listening, the
+    sockets the guard sees, and the listeners the per-update model `update` predicts are the same. -/
+theorem update_is_settled_view_exact (S : State) (so : Bool) (modes : List Nat) (start : List (Nat × Server))
+    (hn : (S.map (·.1)).Nodup) (s : Server) :
+    (s ∈ (lstateAfter (settled S) (updateEvents S so modes start)).listening ↔
+      s ∈ (update S so modes start).live) ∧
+    (s ∈ (lstateAfter (settled S) (updateEvents S so modes start)).guardView ↔
+      s ∈ (update S so modes start).live) := by
+  have hup := update_refines_upper S so modes start hn s
+  have hlow := update_refines S so modes start s
+  have hsub : s ∈ (lstateAfter (settled S) (updateEvents S so modes start)).guardView →
+      s ∈ (lstateAfter (settled S) (updateEvents S so modes start)).listening := by
+    intro h
+    simp only [LState.guardView, List.mem_map, List.mem_filter] at h
+    obtain ⟨e, ⟨he, _⟩, rfl⟩ := h
+    simp only [LState.listening, List.mem_map]
+    exact ⟨e, he, rfl⟩
+  exact ⟨⟨hup, fun h => hsub (hlow h)⟩, ⟨fun h => hup (hsub h), hlow⟩⟩
+
+/-- unique keys are an invariant of the per-update model: every state reached from the empty one by
+    reconfigurations with duplicate-free mode lists (what `configure` enforces) has unique keys -/
+theorem reachable_keys_nodup (ops : List Op)
+    (hops : ∀ so modes start, Op.reconfigure so modes start ∈ ops → modes.Nodup) :
+    ∀ st : State, (st.map (·.1)).Nodup → ((stateAfter st ops).map (·.1)).Nodup := by
+  induction ops with
+  | nil => intro st h; exact h
+  | cons op rest ih =>
+    intro st h
+    simp only [stateAfter]
+    apply ih (fun so modes start hm => hops so modes start (List.mem_cons_of_mem _ hm))
+    cases op with
+    | reconfigure so modes start =>
+      simp only [stepState, update_keys]
+      cases so with
+      | false => simp
+      | true => simpa using hops true modes start List.mem_cons_self
+    | connect dh dp tp ok => exact h
+
 /-! ### non-vacuity: concrete spellings, computed by the kernel -/
 
 private def srvTcp : List Server := [⟨.tcp, [([0x31,0x32,0x37,0x2e,0x30,0x2e,0x30,0x2e,0x31], 8080)]⟩]   -- 127.0.0.1:8080
